@@ -5,6 +5,10 @@ STUBS = []
 OUTSIDE = []
 ASSUMPTIONS = []
 
+# heap blocks are byte arrays of exactly new_block (64) elements = CBMC's default field-sensitivity limit; with symbolic
+# offsets into them per-element SSA symbols explode (measured: Poll 2 ops 65M variables / 38 GB vs 0.6M / 0.3 GB with 0)
+FS0 = ['--max-field-sensitivity-array-size', '0']
+
 RW = ['readx', 'readx_str', 'writex', 'writex_str', 'preadx', 'preadx_str', 'pwritex', 'freadx', 'freadx_str', 'fwritex', 'read', 'fread']
 
 def queries(tier):
@@ -19,7 +23,11 @@ def queries(tier):
                            desc='%s with requested size %d against an OS call returning any count in [-1,size]' % (nm, S),
                            bounds='size == %d, one OS call, symbolic contents' % S))
     for n in ([1, 2, 3] if tier == 'quick' else [1, 2, 3, 4]):
-        qs.append(dict(name='poll_ops%d' % n, unit='fs', harness='h_poll.c', defs={'NOPS': n}, unwind=12, timeout=600, mem_gb=6,
+        qs.append(dict(name='poll_ops%d' % n, unit='fs', harness='h_poll.c', defs={'NOPS': n}, unwind=42, timeout=600, mem_gb=6, flags=FS0,
                        desc='Poll: every history of %d add/remove operations over fds {3,4,5}, symbolic event masks, vs a map model; poll_fds sorted and duplicate-free after every operation' % n,
                        bounds='%d operations, 3 descriptors' % n))
+    for n in ([1, 2, 3] if tier == 'quick' else [1, 2, 3, 4]):
+        qs.append(dict(name='sfd_ops%d' % n, unit='fs', harness='h_sfd.c', defs={'NOPS': n}, unwind=40, timeout=900, mem_gb=8, flags=FS0,
+                       desc='scoped_fd: every sequence of %d operations (10 kinds, 2 objects, open may fail) vs an ownership model; every descriptor handed out is closed exactly once' % n,
+                       bounds='%d operations, 2 objects' % n))
     return qs
